@@ -91,14 +91,18 @@ def run_case(case, trace_id):
     from octoprint_excluderegion.StreamProcessor import StreamProcessor
     live = FilterRig(case["cfg"])
     twin = FilterRig(case["cfg"])
+    prefix_events = []
     for rig in (live, twin):
         for step in case["prefix"]:
             if step[0] == "g":
-                rig.gcode(step[1], step[2])
+                event = rig.gcode(step[1], step[2])
             elif step[0] == "at":
-                rig.at(step[1], step[2], step[3])
+                event = rig.at(step[1], step[2], step[3])
             else:
-                rig.add_region(step[1])
+                event = rig.add_region(step[1])
+            if rig is live:
+                event.pop("st", None)
+                prefix_events.append(event)
     before = alpha_state(live.state)
     regions_before = [r.toDict() for r in live.state.excludedRegions]
     proc = StreamProcessor(io.BytesIO(b""), live.handlers)
@@ -124,24 +128,36 @@ def run_case(case, trace_id):
                 plines.append({"cmd": alpha_cmd(match.group(1).strip()), "eol": match.group(2)})
         event["plines"] = plines
         cmd = command_of(src)
+        eol_in = src[len(src.rstrip("\r\n")):]
+        none_cmd = alpha_cmd("")
         if cmd is None:
             event["live"] = {"kind": "none", "res": "", "out": [], "handled": False}
+            event["line"] = {"kind": "none", "c": none_cmd, "acts": [], "eol": eol_in}
         elif cmd.startswith("@"):
             parts = cmd.split(None, 1)
             twinev = twin.at(parts[0][1:], parts[1] if len(parts) > 1 else "", False)
             event["live"] = {"kind": "at", "res": twinev["res"], "out": twinev["out"],
                              "handled": bool(twinev["in"]["acts"])}
+            event["line"] = {"kind": "at", "c": none_cmd, "acts": twinev["in"]["acts"],
+                             "eol": eol_in}
         else:
             extra = case["extras"].get(cmd)
             twinev = twin.gcode(cmd, extra)
             event["live"] = {"kind": "g" if octo_gcode(cmd)[0] else "none", "res": twinev["res"],
                              "out": twinev["out"], "handled": False}
+            event["line"] = {"kind": "g" if octo_gcode(cmd)[0] else "none",
+                             "c": alpha_cmd(cmd, extra), "acts": [], "eol": eol_in}
         if event["raised"]:
             event["live"]["res"] = "exc" if False else event["live"]["res"]
         event["same"] = (alpha_state(live.state) == before and
                          [r.toDict() for r in live.state.excludedRegions] == regions_before)
         events.append(event)
-    return {"id": trace_id, "eol": case["eol"], "ev": events}
+    from harness.record import contract_cf, Q_TRACE
+    cfg = case["cfg"]
+    return {"id": trace_id, "eol": case["eol"], "ev": events, "prefix": prefix_events,
+            "q": Q_TRACE, "cf": contract_cf(cfg),
+            "cfx": {"enter": [alpha_cmd(x, {"kind": "txt"}) for x in (cfg.get("enter") or [])],
+                    "exit": [alpha_cmd(x, {"kind": "txt"}) for x in (cfg.get("exit") or [])]}}
 
 
 def run(tier, seed):
@@ -172,7 +188,17 @@ def run(tier, seed):
                 print("VIOLATION property=C20 replay=%s" % path)
                 common.log("  clause %s at line %d" % (payload["clause"], verdict["s"]))
                 status = 1
+    t1sum = {"conform": 0, "diverged": 0, "unmodelled": 0, "first_divergences": []}
+    for rec in verdicts:
+        t1sum[rec["t1"]["c"]] += 1
+        if rec["t1"]["c"] == "diverged" and len(t1sum["first_divergences"]) < 5:
+            t1sum["first_divergences"].append({"trace": rec["id"], "line": rec["t1"]["s"],
+                                               "field": rec["t1"]["f"]})
+    if t1sum["diverged"]:
+        common.log("note: %d files diverge from Stream.tla (first: %s)"
+                   % (t1sum["diverged"], t1sum["first_divergences"][:1]))
     coverage = {
+        "t1_conformance": t1sum, "model_conformant": t1sum["diverged"] == 0,
         "evaluations": len(cases), "distinct_nontrivial": len(nontrivial),
         "rule": "generated files (programs decorated with comments, N/checksum, blanks, "
                 "@-commands, LF/CRLF, optional missing final terminator) filtered from live "
